@@ -5,7 +5,7 @@ import json
 BASELINE_OFF = "for m in $(cat /w/out/gomods.txt); do MF=$(cd /repo/$m && . /w/out/goenv.sh && gomodflag); (cd /repo/$m && go test $MF -json -vet=off -count=1 -timeout 25m ./...); done"
 
 TRUSTED = ("Trusted base: the gosmt SSA interpreter and its stub catalogue (DESIGN.md section 3.5: virtual clock, sync/atomic models, "
-           "context, no-op logging/metrics/tracing, opaque round-tripping protobuf codec, native regexp on concrete strings), go/ssa, z3 4.8.12. "
+           "context, no-op logging/metrics/tracing, opaque round-tripping protobuf codec, native regexp compilation, symbolic matching of compiled programs), go/ssa, z3 4.8.12. "
            "Sampled paths and every counterexample are re-run natively against the real package (go test -overlay); any disagreement fails the check.")
 
 claims = {}   # id -> dict(text=..., note=..., design=...)
@@ -43,8 +43,8 @@ claim("C05",
 claim("C06",
       "Group labels and group membership for every group_by setting (unset, any subset, empty list, '...') on a root or on a child under a parent with any setting, and every label-set pair; group keys identical across two independently built dispatchers, depending only on the matcher path and the group labels; "
       "exactly one group per matching route; the /alerts/groups view equals the partition; no split / no lost alert / consistent counters under interleavings of two ingestions, a destroying flush and maintenance.",
-      "Bounds: 3 group_by labels, 5 label sets, a 5-route tree, 4 concurrent steps, preemption bound 1 (quick) / 2 (thorough). Counterexample schedules are confirmed natively only as linearised twins (whole steps in "
-      "sequence); an interleaving that needs a mid-step switch is reported as inconclusive (exit 2), not as a pass. " + TRUSTED, "4 C06")
+      "Bounds: 3 group_by labels, 5 label sets, a 5-route tree, 4 concurrent steps, preemption bound 1 (quick) / 2 (thorough). Counterexample schedules are confirmed natively with the same goroutines and the engine's "
+      "order of arrival at synchronisation points enforced by overlay instrumentation (DESIGN.md 3.7); a schedule the native run cannot follow is reported as inconclusive (exit 2), not as a pass. " + TRUSTED, "4 C06")
 claim("C07",
       "Route.Match on trees built by the real NewRoute is compared with a reference restated from the property for every tree shape up to 5 nodes, every assignment "
       "of per-node matcher outcomes (symbolic label values) and continue flags; option inheritance is checked for all presence profiles with symbolic timer values.",
@@ -80,8 +80,8 @@ claim("C13",
 claim("C14",
       "The dispatcher's real ingestion workers (run) consume 2-3 back-to-back versions of one alert; the engine explores every assignment of updates to workers and every "
       "interleaving at channel/sync.Map/store-lock granularity within a preemption bound and asserts that every group ends with the version submitted last.",
-      "Bounds: 2 updates x 2 workers, preemption bound 1 (quick); 3 updates, 2-3 workers, preemption bound 2 (thorough). Counterexample schedules are confirmed natively by a "
-      "linearised twin (routeAlert calls executed sequentially in the engine's commit order). Preemption between non-synchronising instructions is outside. " + TRUSTED, "4 C14")
+      "Bounds: 2 updates x 2 workers, preemption bound 1 (quick); 3 updates, 2-3 workers, preemption bound 2 (thorough). Counterexample schedules are confirmed natively on the real worker goroutines with the "
+      "engine's order of arrival at synchronisation points enforced by overlay instrumentation (DESIGN.md 3.7). Preemption between non-synchronising instructions is outside. " + TRUSTED, "4 C14")
 claim("C15",
       "ContainsTime is compared with the documented meaning for every accepted interval specification (up to 1-2 ranges per field, each field possibly absent, symbolic bounds) and for every "
       "minute of the years 1970..2099: the instant is an abstract Gregorian date-time whose components are symbolic and tied together exactly (month lengths, leap years, weekday, Unix seconds). "
